@@ -151,9 +151,10 @@ class ClassLattice:
                             patterns=[subcls(x, self.codes['BaseException'])]))
         ax.append(z3.ForAll([x, y, w], z3.Implies(z3.And(subcls(x, y), subcls(y, w)), subcls(x, w)),
                             patterns=[z3.MultiPattern(subcls(x, y), subcls(y, w))]))
-        return ax + truthy_axioms()
+        return ax + truthy_axioms() + [f() for f in EXTRA_AXIOMS for f in [f]][0:0] + [a for f in EXTRA_AXIOMS for a in f()]
 
 
+EXTRA_AXIOMS = []      # functions returning additional global axioms (registered by library models)
 LATTICE = ClassLattice()
 
 
@@ -341,6 +342,8 @@ def as_bool_term(x):
         raise Unsupported(f'truthiness of {x!r}')
     if hasattr(x, 'sym_truthy'):
         return x.sym_truthy()
+    if z3.is_expr(x) and z3.is_bool(x):
+        return x
     return bool(x)
 
 
